@@ -203,6 +203,58 @@ theorem loop_params_restored (ev : List (Name × V) → Res R) (up dn : V → H 
     | exc e => rfl
     | val ud => obtain ⟨u, d⟩ := ud; simpa using ih
 
+/-- one pass that returns has evaluated the observable exactly twice -/
+theorem stepP_val_trace (ev : List (Name × V) → Res R) (up dn : V → H → V) (herr : Name → Option H)
+    (ps : List (Name × V)) (p : Name) (ud : R × R) (h : (stepP ev up dn herr ps p).2.2 = .val ud) :
+    (stepP ev up dn herr ps p).2.1.length = 2 := by
+  unfold stepP at h ⊢
+  cases hh : herr p with
+  | none => simp [hh] at h
+  | some hv =>
+    cases hg : dget ps p with
+    | none => simp [hh, hg] at h
+    | some mem =>
+      simp only [hh, hg] at h ⊢
+      cases h1 : ev (dset ps p (up mem hv)) with
+      | exc e => simp [h1] at h
+      | val u =>
+        simp only [h1] at h ⊢
+        cases h2 : ev (dset (dset ps p (up mem hv)) p (dn mem hv)) with
+        | exc e => simp [h2] at h
+        | val d => simp
+
+/-- **a completed loop evaluated the observable exactly 2·n times and returns one (up, down) pair per free
+    parameter, in the order of the parameters** — no parameter skipped, none varied twice -/
+theorem loop_completed_counts (ev : List (Name × V) → Res R) (up dn : V → H → V) (herr : Name → Option H)
+    (ps : List (Name × V)) (pars : List Name) (l : List (Name × R × R))
+    (h : (loop ev up dn herr ps pars).out = .val l) :
+    (loop ev up dn herr ps pars).trace.length = 2 * pars.length ∧ l.map (·.1) = pars := by
+  induction pars generalizing l with
+  | nil => simp only [loop] at h ⊢; cases h; simp
+  | cons p rest ih =>
+    have hs := stepP_params ev up dn herr ps p
+    have ht := stepP_val_trace ev up dn herr ps p
+    unfold loop at h ⊢
+    rcases hst : stepP ev up dn herr ps p with ⟨ps', tr, r⟩
+    rw [hst] at hs ht h
+    simp only at hs ht h
+    subst hs
+    cases r with
+    | exc e => simp at h
+    | val ud =>
+      obtain ⟨u, d⟩ := ud
+      simp only at h ⊢
+      cases ho : (loop ev up dn herr ps' rest).out with
+      | exc e => rw [ho] at h; simp at h
+      | val l' =>
+        rw [ho] at h
+        simp only [Res.val.injEq] at h
+        subst h
+        obtain ⟨i1, i2⟩ := ih l' ho
+        have := ht (u, d) rfl
+        simp only [List.length_append, List.length_cons, List.map_cons, i1, i2, this]
+        exact ⟨by omega, trivial⟩
+
 /-- every dictionary the observable is evaluated at differs from the caller's in exactly the one parameter being
     varied: all other entries are read as they were -/
 theorem loop_trace_one_coordinate (ev : List (Name × V) → Res R) (up dn : V → H → V) (herr : Name → Option H)
